@@ -14,7 +14,7 @@ RULE = ("configurations: every (list, n_cpu, mode) of the grid is run on the rea
         "order are enumerated exhaustively; max_returns: per query count/true/closest checks; non-trivial = expected set non-empty")
 ASSUMPTIONS = ["real OS timing of pool workers is not controlled; Pool.map is order-preserving by contract and every chunk schedule is enumerated in the virtual pool",
                "virtual pool models Pool(n) with map/starmap/imap/imap_unordered and the fork start method"]
-REQUIRED_CLASSES = {"all": ["n_cpu>len", "n_cpu==len", "chunksize-does-not-divide", "virtual-schedule", "compression>1", "max_returns-truncates", "mode-hamming", "mode-callable", "long-sequences>=127", "all-sequences-of-one-length", "isolated-sequences"]}
+REQUIRED_CLASSES = {"all": ["n_cpu>len", "n_cpu==len", "chunksize-does-not-divide", "virtual-schedule", "compression>1", "max_returns-truncates", "mode-hamming", "mode-callable", "long-sequences>=127", "all-sequences-of-one-length", "isolated-sequences", "max_returns-with-many-ties", "hundreds-of-sequences-with-n_cpu>1"]}
 MIN_OUTCOMES = 10
 
 MODES = ("default", "hamming", "callable", "callable-half", "callable-rapidfuzz",
@@ -44,9 +44,17 @@ def tenth_lev(a, b):
     return 0.1 * ref_lev(a, b)
 
 
+def posweight(a, b):
+    """position-weighted mismatch count with weights 0.1, 0.2, 0.3, ...: 0.1 + 0.2 = 0.30000000000000004 competes with 0.3"""
+    n = min(len(a), len(b))
+    return sum(0.1 * (i + 1) for i in range(n) if a[i] != b[i]) + 0.1 * sum(range(n + 1, max(len(a), len(b)) + 1))
+
+
 def mode_kw(mode):
     if mode == "default":
         return {}
+    if mode == "callable-posweight":
+        return dict(custom_distance=posweight)
     if mode == "default-stray-maxcd":
         return dict(max_custom_distance=0.5)
     if mode == "hamming-stray-maxcd":
@@ -75,6 +83,8 @@ def expected(seqs, k, mode):
     if mode.startswith("callable-tenth-below-"):
         T = math.nextafter(float(mode.rsplit("-", 1)[1]), 0.0)
         return {(i, j, 0.1 * d) for i, j, d in base if 0.1 * d <= T}
+    if mode == "callable-posweight":
+        return {(i, j, posweight(seqs[i], seqs[j])) for i, j, d in base}
     if mode == "callable-lendiff":
         return {(i, j, lendiff(seqs[i], seqs[j])) for i, j, d in base}
     if mode == "callable-half":
@@ -96,6 +106,11 @@ def spaces(tier):
                 if n >= 3:
                     for mode in ("default", "hamming", "callable"):
                         yield ("real", n, ncpu, mode, 1 if n < 9 else 2, "isolated")
+
+    def gen_big():
+        # a few hundred to a thousand sequences whose number is not a multiple of the worker count (neighbours among the last rows)
+        for N, ncpu in ((513, 2), (601, 2), (601, 3), (1025, 4), (1001, 7)):
+            yield ("real-big", N, ncpu)
 
     def gen_comp():
         for alpha, L in (("ACD", 4), ("AC", 5)):
@@ -130,9 +145,13 @@ def spaces(tier):
             for m in (1, 2):
                 for mode in MR_MODES:
                     yield ("maxret-comp", comp, m, mode)
+        for m in (1, 2, 3):
+            for mode in ("default", "hamming", "callable", "callable-posweight"):
+                yield ("maxret-ties", m, mode)
 
     return [
         Space("real-pool-grid", gen_real, "prefixes of a 17-string corpus of sizes %s x n_cpu in 1..16 (quick: 1,2,3,4,7,8,16) x {default,hamming,callable}; real multiprocessing.Pool" % (SIZES,), per_case=True),
+        Space("real-pool-hundreds-of-sequences", gen_big, "size-boundary collections of 513..1025 sequences (clonal families next to 256, 512, 1000, 1024 and the end) x n_cpu in {2,3,4,7} not dividing the size; default and Hamming mode", per_case=True),
         Space("compression-grid", gen_comp, "U(alphabet,3|4) for 3 bin-straddling alphabets x compression 1..25 x k in 1..3 x 3 modes at n_cpu=1"),
         Space("long-sequences-x-compression", gen_long, "sequences of 127..256 residues (homopolymers and a 10-letter repeat, one edit apart) x compression in {1,2,10,20,25} x 3 modes x k in 1..2"),
         Space("virtual-pool-schedules", gen_virtual, "every chunk-to-worker assignment and completion order for lists of 2..4(5) sequences x n_cpu in {2,3} x 3 modes", per_case=True),
@@ -179,6 +198,18 @@ def check_case(case, acc):
             _report(acc, "kdtree/%s/differs-from-single-process" % mode, case, set(base), res)
             return
         acc.ok((n, mode, digest(res)), nontrivial=bool(exp))
+    elif kind == "real-big":
+        _, N, ncpu = case
+        acc.cls("hundreds-of-sequences-with-n_cpu>1")
+        seqs, pos = E.size_family(N, marks=(256, 512, 1000, 1024))
+        for mode in ("default", "hamming"):
+            exp = expected(seqs, 1, mode)
+            res = _kd(acc, seqs, 1, mode, n_cpu=ncpu)
+            bad = diagnose(res, exp)
+            if bad is not None:
+                _report(acc, "kdtree/%s/n_cpu>1/hundreds-of-sequences/%s" % (mode, bad[0]), case, exp, res, note="real pool; %s" % (bad,))
+                return
+            acc.ok((N, ncpu, mode, len(res)), nontrivial=bool(exp))
     elif kind == "comp":
         _, alpha, L, comp, k = case
         seqs = E.universe(alpha, L)
@@ -239,6 +270,25 @@ def check_case(case, acc):
         seqs = ["CASSL", "CASSLG", "CAWWL", "CASWL", "CAWSL", "CATTL", "CASSV", "CWSSL"]
         for k in (1, 2):
             _check_maxret(acc, case, seqs, m, mode, k, compression=comp)
+    elif kind == "maxret-ties":
+        # many equally distant neighbours per query (a clone, its one-substitution variants and a few two-substitution ones): the
+        # per-query guarantees hold, and - as the result must not depend on the configuration - the same neighbours are reported
+        # for every compression and worker count; distances that differ by less than 1e-9 are still different distances
+        _, m, mode = case
+        acc.cls("max_returns-with-many-ties")
+        base = "CASSLG"
+        seqs = [base] * 6 + [base[:i] + c + base[i + 1:] for i in range(6) for c in "AW"] + ["AWSSLG", "CAWWLG", "CASSAW", "WASSLW", base, "CASSL", "CASSLGG"]
+        for k in (1, 2):
+            ref_run = None
+            for cfg in (dict(), dict(compression=2), dict(compression=5), dict(n_cpu=2), dict(compression=3, n_cpu=3)):
+                res = _check_maxret(acc, case, seqs, m, mode, k, **cfg)
+                if res is None:
+                    return
+                if ref_run is None:
+                    ref_run = digest(res)
+                elif digest(res) != ref_run:
+                    acc.fail("kdtree/%s/max_returns/depends-on-configuration" % mode, case, "the neighbours reported by the uncompressed single-process run", cfg, note="k=%d m=%d" % (k, m))
+                    return
     elif kind == "long":
         _, n, comp = case
         acc.cls("long-sequences>=127")
@@ -351,3 +401,4 @@ def _check_maxret(acc, case, seqs, m, mode, k, **kw):
     if trunc:
         acc.cls("max_returns-truncates")
     acc.ok((mode, m, k, tuple(sorted((i, len(v)) for i, v in got.items()))), nontrivial=trunc)
+    return res
